@@ -355,6 +355,9 @@ static int convertToNested(KSI_TlvElement *el) {
 
 cleanup:
 
+	KSI_TlvElement_free(tmp);
+	KSI_TlvElementList_free(list);
+
 	return res;
 }
 
